@@ -2,6 +2,7 @@
 spec/CachePlugin.tla (Dump/Load/LoadCut, RestartTransparent), harness/drv_cache (mode c19)."""
 import json
 import random
+import re
 
 import cachelib as cl
 import vlib
@@ -15,6 +16,8 @@ C19 = dict(Names='{"n1"}', Types='{"t1", "t2"}', Classes='{"c1"}', Flags="{0}", 
 def signature(rec, info):
     e = info.get("event") or {}
     k = e.get("ev")
+    if k == "Dump" and rec["tag"] == "file-restart" and e.get("status", 200) == 200:
+        return "dump-file-differs-from-cache-after-close:inst=%s:entries=%d" % (e.get("i"), len(e.get("ents", [])))
     if k == "Dump":
         if e.get("status", 200) != 200:
             return "dump-request-fails:status=%s" % e.get("status")
@@ -80,10 +83,14 @@ def replay_obj(r, job):
     c = j["c19"]
     if r.get("beh", -1) >= 0:
         c["behaviours"] = [c["behaviours"][r["beh"]]]
-        c["big_n"], c["garbage"] = 0, 0
+        c["big_n"], c["garbage"], c["file_restart"] = 0, 0, 0
     else:
         c["behaviours"] = []
         c["garbage"] = 0
+        if r.get("tag") == "file-restart":
+            c["big_n"] = 0
+        else:
+            c["file_restart"] = 0
     return {"rec": {k: r[k] for k in ("tag", "beh", "extra") if k in r}, "job": j}
 
 
@@ -109,8 +116,9 @@ def garbage_verdicts(ctx, recs, job=None):
     gj = None
     if job:
         gj = json.loads(json.dumps(job))
-        gj["c19"]["behaviours"], gj["c19"]["big_n"] = [], 0
+        gj["c19"]["behaviours"], gj["c19"]["big_n"], gj["c19"]["file_restart"] = [], 0, 0
     for g in recs:
+        g = dict(g, case=re.sub(r"-key\d+-msg\d+-times\d+$|-\d+$", "", g["case"]), case_full=g["case"])
         if g.get("panic"):
             ctx.violation("corrupt-dump-panics:" + g["case"], "POST /load_dump panicked: " + g["panic"][:200], {"garbage": g, "job": gj})
         elif g["hang"]:
@@ -144,6 +152,7 @@ def run(ctx):
         "no probe is placed within 2 s of an expiry boundary; TTLs/ages may read 1 s older (wall-clock skew), real phases "
         "longer than 0.9 s are discarded and repeated",
         "a truncated dump may add ANY subset of the intact dump's entries (where the decoder stops is not part of the property)",
+        "file path: dump_file is written by plugin Close and read by Init; a missing file before any dump counts as an empty dump",
         "no panic / no hang (5 s watchdog) / bounded allocation (256 MB per request, inputs <= 1 MB) are observation premises "
         "checked by the harness, not by TLC",
     ]
@@ -174,7 +183,8 @@ def run(ctx):
     hi.update(tag="high-bytes", names={"n1": "a-rather-long-label-number-one." * 4 + "xn--mller-kva.example.", "n2": "\\195\\188ber.example."},
               types={"t1": 255, "t2": 32769, "t3": 128}, classes={"c1": 255, "c2": 1})
     job = {"mode": "c19", "c19": {"behaviours": behs, "map": cl.plain_map(), "maps": [cl.plain_map(), hi], "shapes": shapes, "big_n": 150, "big_exec": 12,
-                                  "cuts": "all" if T else "quick", "garbage": 400 if T else 80, "lazy": 0}}
+                                  "cuts": "all" if T else "quick", "garbage": 400 if T else 80, "lazy": 0,
+                                  "file_restart": 3}}
     recs, _ = vlib.run_driver(ctx, binary, stdin_obj=job, timeout=1500)
     if T:
         # the multi-block restart once more in lazy mode (entries whose cache expiry differs from the message expiry)
